@@ -364,7 +364,8 @@ static int cif_container_add_scalar(
 
             if ((result == CIF_OK) && (num_packets == 0)
                     && ((result = cif_packet_create(&packet, NULL)) == CIF_OK)) {
-                if ((result = cif_packet_set_item(packet, item_name, val)) == CIF_OK) {
+                /* by its original spelling: cif_packet_set_item() validates the name, and normalization can lengthen it */
+                if ((result = cif_packet_set_item(packet, name_orig, val)) == CIF_OK) {
                     /* No need to specify values for any other scalars here, even if the loop defines some */
                     result = cif_loop_add_packet(loop, packet);
                 }
